@@ -978,8 +978,12 @@ class C16Immutable(Monitor):
         try:
             for g, q in zip(h.scripted, queues):
                 g.queue = list(q)
-            with quiet():
-                r, _ = h.rp.u.step_update.update(saved, env2)
+            try:
+                with quiet():
+                    r, _ = h.rp.u.step_update.update(saved, env2)
+            except Exception as exc:  # HIVE raised while stepping the saved state: bucketed like any crash of a step
+                h._crashed(exc)
+                return None
             return canon(r, ids=False)
         finally:
             for g, q, em, seen in snap:
@@ -1000,7 +1004,11 @@ class C16Immutable(Monitor):
         k = k % len(h.retained)
         saved, _ = h.retained[k]
         queues, first = self.first_result[k]
+        if first is None:
+            return
         again = [self._step_saved(h, saved, queues) for _ in range(2)]
+        if again[0] is None or again[1] is None:
+            return
         h.flag("branched")
         h.stats["branches"] += 1
         if int(h.sim.sim_time) > int(saved.sim_time):
